@@ -77,6 +77,8 @@ class FogSys:
             out.append((((A[0],), (A[0], A[-1])), False))       # nested
             out.append((((A[-1], A[0]), (A[-1],)), False))      # nested, longer first
             out.append((((A[0], A[0]), (A[0], A[0])), False))   # duplicate long
+            out.append((((A[0],), (A[-1], A[0]), (A[-1], A[0])), False))   # duplicate among mixed lengths
+            out.append((((A[-1], A[0]), (A[0],), (A[0],)), False))         # duplicate short one among mixed lengths
         if r >= 3:
             a, b = A[0], A[-1]
             out.append((((a,), (b, a), (b, b, a)), True))           # three distinct lengths, no nesting
